@@ -28,7 +28,7 @@ inductive BaseTy where
 
 inductive SKind where
   | container | list | leaflist | leaf | choice | case
-  deriving Repr, BEq, DecidableEq, Inhabited
+  deriving Repr, DecidableEq, Inhabited
 
 structure SNode where
   depth : Nat
@@ -208,7 +208,7 @@ def BaseTy.cmp : BaseTy → Bytes → Bytes → Ordering
   | .int8, a, b => compare (parseIntB a) (parseIntB b)
   | .uint8, a, b => compare (parseIntB a) (parseIntB b)
   | .int32, a, b => compare (parseIntB a) (parseIntB b)
-  | .boolean, a, b => compare (if a == bytesOfString "true" then 1 else 0) (if b == bytesOfString "true" then 1 else 0)
+  | .boolean, a, b => compare (if a == [116, 114, 117, 101] then 1 else 0) (if b == [116, 114, 117, 101] then 1 else 0)
   | .enumeration items, a, b => compare (enumValue items b) (enumValue items a)
 
 end LyModel.Tree
